@@ -151,6 +151,36 @@ def monSingleShape (n : Nat) (empty : Bool) : Verdict :=
 def monRouteUnquoted (clean : Bool) : Verdict :=
   if clean then some "C12-route-quote" else none
 
+/-- C05 (`mon_fm_custody`): per denom (farm manager's balance, recorded LP of all positions, funded − claimed of all farms,
+    "a sum did not fit" flag): the balance covers positions + farms -/
+def monFmCustody (xs : List (Nat × Nat × Nat × Bool)) : Verdict :=
+  firstFail [(xs.all (fun x => decide (x.2.1 + x.2.2.1 ≤ x.1) && !x.2.2.2), "C05-custody")]
+
+/-- C10 (`mon_weights`, `mon_weights_epoch`): the total weight covers the sum of the users' weights -/
+def monWeightsCover (total users : Nat) : Verdict :=
+  firstFail [(decide (users ≤ total), "C10-total-covers")]
+
+/-- C11 (`mon_farm_expand`): an accepted expansion adds exactly what was attached and extends the end by attached / rate -/
+def monFarmExpand (rate attached endB endA amtB amtA : Nat) (same : Bool) : Verdict :=
+  if rate == 0 then none
+  else if amtA != amtB + attached then some "C11-expand-budget"
+  else if endA != endB + attached / rate then some "C11-expand-end"
+  else if !same then some "C11-expand-other-fields" else none
+
+/-- C11 (`mon_farm_create`): declared reward, fee due, what the fee collector got, anything else taken from the creator, the
+    recorded budget of the new farm -/
+def monFarmCreate (aa fee : Nat) (fc extra : Int) (fa : Nat) : Verdict :=
+  if extra != 0 then some "C11-create-exact" else if fc != (fee : Int) then some "C11-fee-routed"
+  else if fa != aa then some "C11-budget" else none
+
+/-- C11 (`mon_farm_close`): an explicit close refunds exactly the unclaimed remainder to the owner, to nobody else -/
+def monFarmClose (remaining : Nat) (ownerGot fmOut others : Int) : Verdict :=
+  firstFail [(ownerGot == (remaining : Int) && fmOut == (remaining : Int) && others == 0, "C11-close-refund")]
+
+/-- C12 (`mon_quote`): the Simulation answer taken an instant before = what the swap reports (return, spread, fees) -/
+def monQuote (q x : List Nat) : Verdict :=
+  firstFail [(q == x, "C12-quote")]
+
 /-- one LP token's slice of a claim: entry epoch, user and total change points, and its farms as
     (rate, start, end, reward denom, observed increase of `claimed_amount`) -/
 structure ClaimLp where
